@@ -55,6 +55,45 @@ PROPS = {
              "run/run_sdmx/semantic_analysis share that single un-memoised conversion.",
         note="pysdmx enums are read from the installed package source. Structures of 1-5 components are covered because the conversion is "
              "shown to be per-component."),
+
+    "C16": dict(
+        claimed=True, design="§3 C16",
+        technique="statement CFG with exception edges: acquire/release pairing path queries to the normal AND exceptional exit (BaseException-aware), wrapper summaries; escape analysis of the connection; set/reset pairing of per-statement globals",
+        text="Decides the structural half of the property for every failure point at once: in the connection context manager every "
+             "statement after an acquisition has an exception edge, and every path from the acquisition of the session directory / the "
+             "connection to either exit passes its release; the connection cannot outlive the with-region of run() (no use outside, no "
+             "store into longer-lived state); other acquisitions reachable from the API are with-items or paired; the per-statement "
+             "global Exceptions.dataset_output is reset on every exit (history independence; the decimal configuration part is R30.4). "
+             "Fault enumeration over scripts cannot reach failure points between two lines of the context manager; path analysis can.",
+        note="Any statement containing a call/subscript/arithmetic/yield may raise (over-approximation). Not decided: descriptors held "
+             "inside DuckDB, rmtree failing (ignore_errors=True by design)."),
+    "C13": dict(
+        claimed=True, design="§3 C13",
+        technique="CFG path queries (must-precede / must-pass-through per loop iteration), def-use and guard-shape rules on the schedule builder, who-may-emit rule for CREATE/DROP TABLE, 2x2 truth-table comparison",
+        text="Decides the code-shape facts the load/execute/release argument rests on: per-statement ordering load < CREATE < cleanup on "
+             "every path of an iteration with the loop's own index; numbering agreement between DAG, transpiler and executor; a single "
+             "owner for table creation and release; once-only load; release scheduled at last_consumer.get(name, producer); no early exit "
+             "in dependency promotion; identical selection predicates. Each is a necessary condition of the property; the replay of all "
+             "graphs against a table-store model (a model-checking statement) is not attempted.",
+        note="Normal-flow paths only (exceptions abort the run; their cleanup is C16). Structural anchors fail closed (exit 2) if the "
+             "functions are reshaped."),
+    "C14": dict(
+        claimed=True, design="§3 C14",
+        technique="def-use (single reaching definition) of the fetch query, CFG dominance, decision-table evaluation of save_datapoints_duckdb over format x select_sql x delete",
+        text="Decides that the file and the in-memory DataFrame are produced by the same SELECT, that the file sink copies that SELECT for "
+             "every output format into <dataset>.<format> with the matching FORMAT, that no in-memory data is attached on the file path, "
+             "that the time-period representation step precedes both sinks, and that the scalar file receives exactly the Scalars of the "
+             "returned results when a folder is given.",
+        note="Trusts DuckDB's COPY (query) TO file. Does not decide equality of Python post-formatting with SQL formatting (runtime)."),
+    "C22": dict(
+        claimed=True, design="§3 C22",
+        technique="interprocedural flow-sensitive alias/effect analysis (taints: caller's object / reachable from it / fresh container at depth k) from every public API parameter through resolved callees; mutation-site detection",
+        text="Decides for all in-repo code that no store, del, augmented assignment, mutating method call or pandas inplace operation is "
+             "reachable on an object that is, or is reachable from, an argument of the eight public API functions - for every call, valid "
+             "or failing, because the analysis is over all paths. Found the two defects now repaired (validate_dataset's DataFrame, "
+             "run()'s datapoints dict).",
+        note="External library calls are assumed not to mutate or share their arguments (list in the evidence); pandas methods without "
+             "inplace=True return new objects; deepcopy cuts aliasing."),
 }
 
 NA_REASONS = {
